@@ -105,7 +105,7 @@ package ptracer
 //@ func iface:ptracer.Handler.Handle
 //@   assumed "interface contract every Handler implementation is checked against (runner/ptrace.tracerHandler.Handle refines it)"
 //@   params h ctx
-//@   assigns ctx.regs.Rax
+//@   assigns ctx.regs.Rax, UseVMReadv, Q._all
 
 //@ func iface:ptracer.Handler.Debug
 //@   assumed "logging only"
@@ -128,7 +128,7 @@ package ptracer
 //@ func ptracer.(*ptraceHandle).handleTrap props C03 C15
 //@   arith bv
 //@   requires ph.Tracer != nil && ph.Tracer.Handler != nil
-//@   assigns T.setregs_count, T.setregs_orig_rax, T.setregs_rax, T.setregs_pid
+//@   assigns T.setregs_count, T.setregs_orig_rax, T.setregs_rax, T.setregs_pid, UseVMReadv, Q._all
 //@   callsite skipSyscall: assert @C03 c.Pid == pid
 //@   ensures T.setregs_count == old(T.setregs_count) || (T.setregs_count == old(T.setregs_count) + 1 && T.setregs_orig_rax == 18446744073709551615 && T.setregs_pid == pid)
 
@@ -148,7 +148,7 @@ package ptracer
 //@   requires ph.Tracer != nil && ph.Tracer.Handler != nil && ph.traced != nil
 //@   requires forall q int :: has(ph.traced, q) && ph.traced[q] ==> T.options[q] == 1048734
 //@   ensures @C03 forall q int :: has(ph.traced, q) && ph.traced[q] ==> T.options[q] == 1048734 || int(status) == 8
-//@   assigns ph.execved, ph.fTime, mapof(ph.traced), T.cont_count, T.options, T.setregs_count, T.setregs_orig_rax, T.setregs_rax, T.setregs_pid
+//@   assigns ph.execved, ph.fTime, mapof(ph.traced), T.cont_count, T.options, T.setregs_count, T.setregs_orig_rax, T.setregs_rax, T.setregs_pid, UseVMReadv, Q._all
 //@   ensures @C09 pid == old(ph.pgid) && ws_exited(uint32(wstatus)) && old(ph.execved) ==> finished && int(status) == status_of_exit(ws_exitcode(uint32(wstatus))) && exitStatus == ws_exitcode(uint32(wstatus))
 //@   ensures @C09 @C15 pid == old(ph.pgid) && ws_exited(uint32(wstatus)) && !old(ph.execved) ==> finished && int(status) == 8 && len(errStr) > 0
 //@   ensures @C09 pid == old(ph.pgid) && ws_signaled(uint32(wstatus)) ==> int(status) == status_of_signal(ws_termsig(uint32(wstatus))) && exitStatus == ws_termsig(uint32(wstatus))
@@ -187,7 +187,7 @@ package ptracer
 //@ func ptracer.(*Tracer).trace props C09 C12 C15
 //@   arith bv
 //@   requires t != nil && t.Handler != nil
-//@   assigns T.cont_count, T.options, T.setregs_count, T.setregs_orig_rax, T.setregs_rax, T.setregs_pid, T.kill_count, T.kill_last_pid, T.kill_last_sig
+//@   assigns T.cont_count, T.options, T.setregs_count, T.setregs_orig_rax, T.setregs_rax, T.setregs_pid, T.kill_count, T.kill_last_pid, T.kill_last_sig, UseVMReadv, Q._all
 //@   loop 0: invariant t == old(t) && pgid == old(pgid) && cancel != nil
 //@   loop 0: invariant ph != nil && fresh(ph) && ph.Tracer == t && ph.traced != nil && fresh(ph.traced) && ph.pgid == pgid
 //@   loop 0: invariant forall q int :: has(ph.traced, q) && ph.traced[q] ==> T.options[q] == 1048734
